@@ -22,6 +22,7 @@ var vc12Values = map[string]string{
 	"D":  "x$$y",   // the value contains an escaped dollar
 	"C1": "${C2}",  // a two-cycle
 	"C2": "${C1}",
+	"S":  "${S}", // a cycle of length one: the value is the reference's own text
 }
 
 func (p *vc12Provider) Retrieve(_ context.Context, uri string, _ WatcherFunc) (*Retrieved, error) {
@@ -125,7 +126,7 @@ func vc12Reference(s string, depth int) (string, error) {
 
 func VerifC12Expand() {
 	K := vParam("pieces")
-	pieces := []string{"${A}", "${B}", "$$", "$", "", "${R}", "${env:A}", "}", "{A}", "${D}", "${C1}"}
+	pieces := []string{"${A}", "${B}", "$$", "$", "", "${R}", "${env:A}", "}", "{A}", "${D}", "${C1}", "${S}"}
 	var sb strings.Builder
 	usedSym := false
 	for i := 0; i < K; i++ {
